@@ -15,7 +15,10 @@
 //! Implements zone loading.
 
 use std::fmt::Write;
+#[cfg(not(quandary_verif))]
 use std::fs;
+#[cfg(quandary_verif)]
+use quandary::verif::fs;
 use std::io::ErrorKind;
 use std::path::PathBuf;
 use std::sync::Arc;
